@@ -485,6 +485,14 @@ class BaseAlignmentModel(ABC):
             return xp.asnumpy(lds_upsampled)
         return xp.asnumpy(lds)
 
+    def _landscape_shape(
+        self, max_shifts: tuple[float, ...], upsample: int = 1
+    ) -> tuple[int, ...]:
+        """Shape of the landscape of a single template returned by ``landscape``."""
+        if upsample > 1:
+            return tuple(2 * int(m * upsample) + 1 for m in max_shifts)
+        return tuple(2 * int(m) + 1 for m in max_shifts)
+
     def _landscape_single(
         self,
         subvolume: AnyArray[np.float32],
